@@ -250,8 +250,10 @@ thread_local! {
     pub static OTHER_V2: v2::Header<'static> = {
         let mut b = spec::v2::SIG.to_vec();
         b.extend_from_slice(&[0x21, 0x11, 0, 15, 1, 2, 3, 4, 5, 6, 7, 8, 0, 80, 1, 187, 4, 0, 0]);
-        let b: &'static [u8] = Box::leak(b.into_boxed_slice());
-        v2::Header::try_from(b).map(|h| h.to_owned()).expect("fixed valid header")
+        // the owned copy holds its own bytes; nothing is leaked (the AddressSanitizer layer runs
+        // with leak detection on)
+        let owned = v2::Header::try_from(b.as_slice()).map(|h| h.to_owned()).expect("fixed valid header");
+        owned
     };
 }
 
